@@ -125,6 +125,8 @@ namespace plan
       g_rel(r, op, K);
       g_rel(r, op, K);
     }
+    else if (name == "ublock")
+      op.a = {static_cast<long>(r.below(4)), r.range(-5, 6), static_cast<long>(r.below(7)), static_cast<long>(r.below(5)), static_cast<long>(r.below(4)), static_cast<long>(r.below(3)), static_cast<long>(r.below(2))};
     else if (name == "blockade")
       op.a = {static_cast<long>(r.below(4)), static_cast<long>(r.below(4))};
     else if (name == "touch")
@@ -388,6 +390,8 @@ namespace plan
     if (causal || sv)
       for (int i = 0, n = static_cast<int>(sw.range(1, 6)); i < n; ++i)
         ops.push_back(g_op(g, g.chance(1, 6) ? "r_logic" : (g.chance(1, 8) ? "r_mul" : (g.chance(1, 2) ? "r_rel" : "r_goal"))));
+    if ((prop == "C02" || prop == "C03") && Rng(seed).derive("ublock").chance(1, prop == "C02" ? 4 : 6))
+      ops.push_back(g_op(g, "ublock")); // a block solvable by construction, through unification only (P7(b))
     W w;
     const bool timeline_focus = prop == "C19" || prop == "C04" || prop == "C05" || prop == "C06";
     w.add("real", 3), w.add("bool", 2), w.add("rel", timeline_focus ? 4 : 14);
